@@ -35,7 +35,7 @@ def parse_output(out, harnesses):
         m = re.match(r'^(?:Thread (\d+): )?Checking harness (\S+?)\.\.\.', line)
         if m:
             thread = m.group(1)
-            name = m.group(2).split('::')[-1]
+            name = m.group(2)
             cur_by_thread[thread] = name
             cur = name
             continue
@@ -64,7 +64,7 @@ def parse_output(out, harnesses):
 
 def run(scratch, harnesses, jobs=12, timeout=3000, extra=()):
     h = setup(scratch)
-    cmd = ['cargo', 'kani', '--output-format', 'terse', '-j', str(jobs)] + list(extra)
+    cmd = ['cargo', 'kani', '--output-format', 'terse', '--exact', '-j', str(jobs)] + list(extra)
     for n in harnesses:
         cmd += ['--harness', n]
     t0 = time.time()
@@ -83,7 +83,7 @@ def concrete_playback(scratch, harness, timeout=1200):
     """ask Kani for a concrete counterexample of a failing harness and replay it as an ordinary test
     against the real crate.  -> dict(found, test_code, replay_output, replay_failed)"""
     h = setup(scratch)
-    cmd = ['cargo', 'kani', '--harness', harness, '-Z', 'concrete-playback', '--concrete-playback=inplace']
+    cmd = ['cargo', 'kani', '--exact', '--harness', harness, '-Z', 'concrete-playback', '--concrete-playback=inplace']
     r = subprocess.run(cmd, cwd=h, env=vpenv.offline_env(), capture_output=True, text=True, timeout=timeout)
     code = ''
     for root, _d, files in os.walk(os.path.join(h, 'src')):
